@@ -339,6 +339,31 @@ def flush_busy_history():
     return strat()
 
 
+def flush_blocked_spawn_history():
+    """flush() of several waiting messages into a small bounded store pool: flush() is still handing the later entries to the
+    pool while an earlier one has already been read, attempted and deferred again."""
+    OK = {'shape': 'none'}
+    T = {'shape': 'raise_t', 'replies': [0]}
+    MT = {'shape': 'map', 'per': ['temp'], 'replies': [0]}
+
+    @st.composite
+    def strat(draw):
+        cfg = {'backend': draw(st.sampled_from(['dict', 'disk'])), 'backoff': [5], 'backoff_forever': True,
+               'store_pool': draw(st.sampled_from([1, 1, 2])), 'relay_pool': None, 'announce': draw(st.booleans())}
+        acts = []
+        for _ in range(draw(st.integers(3, 4))):
+            acts += [['enqueue', {'n': draw(st.integers(1, 2)), 'sender': True, 'body': ''}], ['serve', T]]
+        acts.append(['flush'])
+        outcome = draw(st.sampled_from([MT, MT, T]))
+        acts += [['release_kind', 'get', 0], ['release_kind', 'relay', 0, outcome]]
+        step = st.one_of(st.just(['release_kind', 'increment_attempts', 0]), st.just(['release_kind', 'set_timestamp', 0]),
+                         st.just(['release_kind', 'get', 0]), st.just(['release_kind', 'relay', 0, outcome]), st.just(['storage']),
+                         st.integers(0, 3).map(lambda i: ['release', i, OK]))
+        tail = draw(st.lists(step, max_size=10))
+        return cfg, acts + tail + [['tick'], ['tick']]
+    return strat()
+
+
 def announce_window_history():
     """A (stale) announcement of a message arrives while the storage operations that follow a relay answer are still pending."""
     T = {'shape': 'raise_t', 'replies': [0]}
